@@ -416,6 +416,28 @@ def cascade_case(ctx, scen, i):
     lines += ['get m0 %s' % k.hex() for k in keys] + ['iter m0 iter', 'stats m0', 'len m0', 'closeall', 'snap db']
     pair(ctx, 'cascade', i, lines, files_oracle=True, op_timeout=60)
 
+
+# ------------------------------------------------------------------ values beyond 2 MiB (4-byte length and offset fields)
+def huge_case(ctx, scen, i, reopen=True):
+    """one value of 2 MiB + 4 KiB (its length needs a 4-byte varint), then further entries whose value offsets lie beyond
+    2 MiB (4-byte offset fields inside key records, also in a chain), overwrites, a delete; optionally closed and re-opened
+    in a new process and read back completely"""
+    g = G.G(ctx.seed, scen + 'huge', i)
+    r = g.rng
+    n = r.choice([1, 2, 8])
+    big = 2097152 + 4096 + r.choice([0, 1, 7])
+    ks = [('k%02d' % j).encode() for j in range(6)]
+    a = ['db d0 db', 'map m0 d0 bytes m B%d' % n, 'put m0 %s z3x1' % ks[0].hex(), 'put m0 %s z%dx%d' % (b'blob'.hex(), big, r.randrange(250))]
+    for j, k in enumerate(ks[1:]):
+        a.append('put m0 %s z%dx%d' % (k.hex(), r.choice([0, 5, 200, 1100]), j))
+    a += ['get m0 %s' % b'blob'.hex(), 'put m0 %s z700x3' % ks[0].hex(), 'del m0 %s' % ks[2].hex(), 'put m0 %s z%dx4' % (b'blob'.hex(), big + 9)]
+    a += ['get m0 %s' % k.hex() for k in ks] + ['get m0 %s' % b'blob'.hex(), 'len m0', 'iter m0 iter', 'closeall', 'snap db']
+    segs = [a]
+    if reopen:
+        segs.append(['db d0 db', 'map m0 d0 bytes m default'] + ['get m0 %s' % k.hex() for k in ks] +
+                    ['get m0 %s' % b'blob'.hex(), 'len m0', 'iter m0 values', 'put m0 %s 01' % b'blob'.hex(), 'stats m0', 'closeall', 'snap db'])
+    pair(ctx, 'huge', i, segs, op_timeout=120)
+
 # ------------------------------------------------------------------ C01
 def scen_C01(ctx):
     ctx.rule = ('seeded random histories (put/get/delete/includes_key/len/is_empty) over small key universes, all five key types, '
@@ -436,6 +458,7 @@ def scen_C01(ctx):
         pair(ctx, 'hist', i, lines, stats=g.stats)
     parallel(one, range(n_hist))
     parallel(lambda i: cascade_case(ctx, 'C01', i), range(ctx.scale(12, 60)))
+    parallel(lambda i: huge_case(ctx, 'C01', i, reopen=False), range(ctx.scale(1, 4)), workers=4)
     # bounded-exhaustive enumeration: EVERY call sequence of length L over a small alphabet (2 colliding keys, one of them
     # filling its key slot exactly; value lengths 0 / 14 (fills a 16-byte slot) / 15 (next class) / 1100 (large slot); put, delete,
     # get) on a one-bucket table, each sequence on its own map, followed by reads of both keys, len and a traversal
@@ -761,6 +784,7 @@ def scen_C02(ctx):
                 segs.append([])         # next session in a new process
         pair(ctx, 'reopen', i, segs, stats=g.stats, files_oracle=True)
     parallel(one, range(ctx.scale(70, 500)))
+    parallel(lambda i: huge_case(ctx, 'C02', i), range(ctx.scale(2, 6)), workers=4)
 
 
 SCENARIOS['C02'] = scen_C02
@@ -1680,6 +1704,18 @@ def scen_C18(ctx):
         ks = g.key_universe(kt, r.choice([3, 10, 30]))
         p = g.params()
         upd = g.hist(kt, ctx.scale(120, 500), keys=ks, big=0.03, reads=0.0)
+        # every updating call of the API belongs to "the update history": bulk_put / bulk_delete / put_from_iter batches too
+        for _ in range(r.randrange(2, 7)):
+            sel = r.sample(ks, min(len(ks), r.choice([2, 5, 12])))
+            c = r.random()
+            if c < 0.5:
+                op = 'bulkput m0 ' + ','.join('%s:%s' % (G.hx(k), g.value_token(0.0, 200)) for k in sel)
+            elif c < 0.75:
+                op = 'putiter m0 ' + ','.join('%s:%s' % (G.hx(k), g.value_token(0.0, 100)) for k in sel)
+            else:
+                op = 'bulkdel m0 ' + ','.join(G.hx(k) for k in sel)
+            upd.insert(r.randrange(len(upd) + 1), op)
+            g.count(op.split()[0])
         a = ['db d0 dirA', 'map m0 d0 %s m %s' % (kt, p)] + upd + ['closeall', 'snap dirA']
         b = ['db d0 dirB', 'map m0 d0 %s m %s' % (kt, p)]
         for u in upd:
@@ -1687,13 +1723,30 @@ def scen_C18(ctx):
                 b += g.read_only_session(kt, ks, n=r.randrange(1, 4))
             b.append(u)
         b += ['closeall', 'snap dirB']
-        res = pair(ctx, 'twice', i, [a, b], stats=g.stats)
+        res = pair(ctx, 'twice', i, [a, b], stats=g.stats, oracle=twice_oracle)
         il = res.get('impl_lines') or []
         if res.get('ok') and len(il) == len(a) + len(b):
             if il[len(a) - 1].split()[1:] != il[-1].split()[1:]:
                 ctx.violation('twice_%d' % i, 'two executions of the same update history left different files: run A `%s`, run B (new process, read-only calls spliced in) `%s`'
                               % (il[len(a) - 1][:200], il[-1][:200]), a + ['# --- process 1 ---'] + b)
     parallel(one, range(ctx.scale(60, 400)))
+
+
+def twice_oracle(segments, workdir, release=False):
+    """the property statement itself: run A and run B (new process, other directory, read-only calls spliced in) must leave
+    byte-identical files; also repeated a few times, since run-to-run nondeterminism need not show on the first pair"""
+    v = api_oracle(segments, workdir, release, files=False)
+    if v:
+        return v
+    if len(segments) < 2:
+        return None
+    for attempt in range(3):
+        il, ist = impl_only(segments, workdir, release)
+        ops = [l for seg in segments for l in seg if l.strip() and not l.startswith('#')]
+        snaps = [il[j].split()[1:] for j, op in enumerate(ops) if op.split()[0] == 'snap' and j < len(il)]
+        if len(snaps) >= 2 and snaps[0] != snaps[-1]:
+            return 'two executions of the same update history left different files: run A `%s`, run B `%s`' % (' '.join(snaps[0])[:200], ' '.join(snaps[-1])[:200])
+    return None
 
 
 SCENARIOS['C18'] = scen_C18
